@@ -17,11 +17,11 @@ Section AddrText.
   Variable crc16_xmodem : list N -> list N.        (* 2 bytes, big-endian, as XModemCrc.QuickDigest *)
 
   (* text codecs *)
-  Variable bech32_enc : list N -> list N -> list N.
+  Variable bech32_enc : list N -> list N -> res (list N).
   Variable bech32_dec : list N -> list N -> res (list N).
   Variable segwit_enc : list N -> N -> list N -> res (list N).
   Variable segwit_dec : list N -> list N -> res (N * list N).
-  Variable cash_enc : list N -> list N -> list N -> list N.
+  Variable cash_enc : list N -> list N -> list N -> res (list N).
   Variable cash_dec : list N -> list N -> res (list N * list N).
   Variable b32_enc_nopad : option (list N) -> list N -> list N.
   Variable b32_dec : option (list N) -> list N -> res (list N).
@@ -36,16 +36,17 @@ Section AddrText.
     _ <- validate_length d n ;;
     Ok d.
 
-  Definition atom_encode (hrp pub_c : list N) : list N := bech32_enc hrp (h160 pub_c).
+  Definition atom_encode (hrp pub_c : list N) : res (list N) := bech32_enc hrp (h160 pub_c).
   Definition atom_decode (hrp addr : list N) : res (list N) := bech32_fixed_decode hrp hash160_len addr.
 
   (* AvaxPChain / AvaxXChain: "P-" / "X-" in front of an Atom address under the avax HRP *)
-  Definition avax_encode (prefix hrp pub_c : list N) : list N := prefix ++ atom_encode hrp pub_c.
+  Definition avax_encode (prefix hrp pub_c : list N) : res (list N) :=
+    rmap (app prefix) (atom_encode hrp pub_c).
   Definition avax_decode (prefix hrp addr : list N) : res (list N) :=
     a <- validate_and_remove_prefix addr prefix ;; atom_decode hrp a.
 
   (* Egld: the raw 32-byte ed25519 key *)
-  Definition egld_encode (pub32 : list N) : list N := bech32_enc egld_hrp pub32.
+  Definition egld_encode (pub32 : list N) : res (list N) := bech32_enc egld_hrp pub32.
   Definition egld_decode (addr : list N) : res (list N) :=
     d <- bech32_fixed_decode egld_hrp (ed25519_compr_len - 1)%nat addr ;;
     if valid_pub 2 d then Ok d else Err ValueError.
@@ -54,7 +55,7 @@ Section AddrText.
   Definition eth_bytes (pub_u : list N) : res (list N) :=
     from_hex (skipn 2 (eth_encode keccak256 false pub_u)).
   Definition ethb32_encode (hrp pub_u : list N) : res (list N) :=
-    raw <- eth_bytes pub_u ;; Ok (bech32_enc hrp raw).
+    raw <- eth_bytes pub_u ;; bech32_enc hrp raw.
   Definition inj_decode (addr : list N) : res (list N) :=
     bech32_fixed_decode inj_hrp (Nat.div eth_addr_len 2)%nat addr.
   (* Okex and One decode through EthAddrDecoder (skip_chksum_enc = true) *)
@@ -63,7 +64,7 @@ Section AddrText.
     eth_decode keccak256 true (eth_prefix ++ to_hex d).
 
   (* Zil: last 20 bytes of SHA-256 of the compressed key *)
-  Definition zil_encode (pub_c : list N) : list N :=
+  Definition zil_encode (pub_c : list N) : res (list N) :=
     bech32_enc zil_hrp (take_last zil_hash_len (sha256 pub_c)).
   Definition zil_decode (addr : list N) : res (list N) := bech32_fixed_decode zil_hrp zil_hash_len addr.
 
@@ -84,8 +85,8 @@ Section AddrText.
     if v =? p2tr_wit_ver then Ok d else Err ValueError.
 
   (* ---- CashAddr *)
-  Definition bch_p2pkh_encode (hrp net_ver pub_c : list N) : list N := cash_enc hrp net_ver (h160 pub_c).
-  Definition bch_p2sh_encode (hrp net_ver pub_c : list N) : list N :=
+  Definition bch_p2pkh_encode (hrp net_ver pub_c : list N) : res (list N) := cash_enc hrp net_ver (h160 pub_c).
+  Definition bch_p2sh_encode (hrp net_ver pub_c : list N) : res (list N) :=
     cash_enc hrp net_ver (p2sh_script_hash sha256 ripemd160 pub_c).
   Definition bch_decode (hrp net_ver addr : list N) : res (list N) :=
     nd <- checksum_to_value_error (cash_dec hrp addr) ;;
